@@ -203,18 +203,29 @@ class G:
             out.append(self.rnd.choice([20, 21, 30, 45, 80, 110, -20, -21]))
         return out
 
+    reuse_masks = False     # set by callers that want the same mask to recur (shared mask subroutines)
+
     def mask(self, nh):
         nb = (nh + 7) // 8
+        if self.reuse_masks:
+            old = [m for m in getattr(self, "_masks", []) if len(m) == nb]
+            if old and self.rnd.random() < 0.45:
+                return self.rnd.choice(old)
         bits = [1 if self.rnd.random() < 0.6 else 0 for _ in range(nh)] + [0] * (nb * 8 - nh)
-        return bytes(sum(b << (7 - j) for j, b in enumerate(bits[i * 8:i * 8 + 8])) for i in range(nb))
+        m = bytes(sum(b << (7 - j) for j, b in enumerate(bits[i * 8:i * 8 + 8])) for i in range(nb))
+        if self.reuse_masks:
+            self.__dict__.setdefault("_masks", []).append(m)
+        return m
 
 
-def gen_program(rnd, cff2=False, style=None, numeric=None, hints=None, width=None, nominal=0, default=0):
+def gen_program(rnd, cff2=False, style=None, numeric=None, hints=None, width=None, nominal=0, default=0,
+                mask_rate=0.25, reuse_masks=False):
     """-> dict(program=tokens, meta=...).  The program is complete: [width] hints path endchar."""
     style = style or rnd.choice(["ops", "ops", "general", "general", "mixed"])
     numeric = numeric or rnd.choice(["int", "int", "int", "fixed", "real"])
     p0 = rnd.choice([0.0, 0.15, 0.3, 0.5])
     g = G(rnd, numeric, p0, cff2)
+    g.reuse_masks = reuse_masks
     limit = g.limit
     prog = []
     hints = hints if hints is not None else rnd.choice(
@@ -292,7 +303,7 @@ def gen_program(rnd, cff2=False, style=None, numeric=None, hints=None, width=Non
         else:
             for _i in range(nops):
                 prog += g.path_ops(1)
-                if masks and rnd.random() < 0.25:
+                if masks and rnd.random() < mask_rate:
                     prog += ["hintmask", g.mask(nh)]
     if not cff2:
         prog.append("endchar")
@@ -361,6 +372,11 @@ def atoms_of(prog):
         t = prog[i]
         if t in ("hintmask", "cntrmask"):
             out.append([t, prog[i + 1]])
+            i += 2
+        elif i + 1 < len(prog) and prog[i + 1] == "vsindex" and not isinstance(t, (str, bytes, bytearray)):
+            # 'n vsindex' is never torn apart (no subroutiniser separates the operator from its
+            # operand; remove_hints' handling of a non-leading vsindex is a listed known finding)
+            out.append([t, "vsindex"])
             i += 2
         else:
             out.append([t])
@@ -434,8 +450,12 @@ def resolve(atoms, nlocal, nglobal):
     return out
 
 
-def subroutinize(rnd, programs, cff2=False, max_depth=3, pad_local=0, pad_global=0, shared=()):
+def subroutinize(rnd, programs, cff2=False, max_depth=3, pad_local=0, pad_global=0, shared=(), mask_subrs=0.0):
     """-> (programs', local_subrs, global_subrs), all as token lists.
+    mask_subrs: probability, per program, of factoring its mid-path hintmask/cntrmask operators (those
+    after the first moveto) into hint-only subroutines `hintmask <mask> [return]`, shared between all
+    programs using the same mask - the usual shape of hint replacement in subroutinised hinted fonts; a
+    glyph with two or more mid-path masks then makes two or more calls to hint-only subroutines.
     shared: list of (program indices, skip, n): atoms [skip, skip+n) are identical in all the listed
     programs and are moved into ONE subroutine called by all of them (e.g. a common hint prelude)."""
     pool = SubrPool(cff2)
@@ -453,12 +473,27 @@ def subroutinize(rnd, programs, cff2=False, max_depth=3, pad_local=0, pad_global
         sidx = pool.add(body, is_global)
         for i in idxs:
             pre[i] = (skip, n, pool.call(sidx, is_global))
+    mask_pool = {}
     for pi, p in enumerate(programs):
         a = atoms_of(p)
         if pi in pre:
             skip, n, call = pre[pi]
             a[skip:skip + n] = call
-        if rnd.random() < 0.8:
+        nmask_calls = 0
+        if mask_subrs and rnd.random() < mask_subrs:
+            started = False
+            for j, atom in enumerate(a):
+                if atom[0] in ("rmoveto", "hmoveto", "vmoveto"):
+                    started = True
+                elif started and len(atom) == 2 and atom[0] in ("hintmask", "cntrmask"):
+                    key = (atom[0], bytes(atom[1]))
+                    if key not in mask_pool:
+                        is_global = rnd.random() < 0.5
+                        body = [list(atom)] + ([] if cff2 else [["return"]])
+                        mask_pool[key] = (pool.add(body, is_global), is_global)
+                    a[j] = pool.call(*mask_pool[key])[0]
+                    nmask_calls += 1
+        if rnd.random() < (0.4 if nmask_calls >= 2 else 0.8):
             a = extract(rnd, a, pool, 1, max_depth, rnd.choice([1, 2, 3]))
         outs.append(a)
     pad_body = [] if cff2 else [["return"]]
